@@ -93,6 +93,8 @@ func (m *DistrStakingMigrate) Execute(ctx sdk.Context, cdc codec.BinaryCodec, fr
 		info.DelegatorAddress = sdk.AccAddress(to.Bytes()).String()
 		stakingStore.Delete(delegateIterator.Key())
 		stakingStore.Set(stakingtypes.GetDelegationKey(to.Bytes(), validatorAddr), stakingtypes.MustMarshalDelegation(cdc, info))
+		stakingStore.Delete(stakingtypes.GetDelegationsByValKey(validatorAddr, from))
+		stakingStore.Set(stakingtypes.GetDelegationsByValKey(validatorAddr, to.Bytes()), []byte{})
 
 		events = append(events,
 			sdk.NewEvent(
@@ -121,6 +123,7 @@ func (m *DistrStakingMigrate) Execute(ctx sdk.Context, cdc codec.BinaryCodec, fr
 
 		// migrate unbonding queue
 		for _, entry := range ubd.Entries {
+			stakingStore.Set(stakingtypes.GetUnbondingIndexKey(entry.UnbondingId), stakingtypes.GetUBDKey(to.Bytes(), valAddr))
 			var ubdFlag bool
 			UBDQueue, err := m.stakingKeeper.GetUBDQueueTimeSlice(ctx, entry.CompletionTime)
 			if err != nil {
@@ -174,6 +177,7 @@ func (m *DistrStakingMigrate) Execute(ctx sdk.Context, cdc codec.BinaryCodec, fr
 
 		// migrate redelegate queue
 		for _, entry := range red.Entries {
+			stakingStore.Set(stakingtypes.GetUnbondingIndexKey(entry.UnbondingId), stakingtypes.GetREDKey(to.Bytes(), valSrcAddr, valDstAddr))
 			var redFlag bool
 			redQueue, err := m.stakingKeeper.GetRedelegationQueueTimeSlice(ctx, entry.CompletionTime)
 			if err != nil {
